@@ -224,10 +224,20 @@ def sched_tests():
     return sched.selftest()
 
 
+def conformance_tests():
+    """Real-pty conformance of VStdout for the no-fault path (vlib/conformance.py)."""
+    from . import conformance
+
+    fails, notes = conformance.run_all()
+    for n in notes:
+        print("selftest conformance:", n, file=sys.stderr)
+    return fails
+
+
 def main():
     fails = []
     for name, f in (("vterm", vterm_tests), ("vtty", vtty_tests), ("explore", explorer_tests),
-                    ("sched", sched_tests)):
+                    ("sched", sched_tests), ("conformance", conformance_tests)):
         try:
             r = f()
         except Exception as e:  # noqa
